@@ -22,11 +22,14 @@ pub struct Spec {
     /// at (-1,-1); bit 1: the same for the source cel; bit 2: both also overhang by two pixels
     /// on the bottom and right.  The on-canvas pixels are the same in every case.
     pub pad: u8,
+    /// the file header's flag word (bit 0 = "layer opacity valid" in Aseprite; not part of the composition the properties define)
+    pub hflags: u32,
 }
 
 pub fn sprite(mode: u16, sp: &Spec) -> Vec<u8> {
     let fmt = Fmt::Rgba;
     let mut f = gen::file(sp.w, sp.h, &fmt, &[1]);
+    f.header.flags = sp.hflags;
     f.frames[0].push(Body::Layer(Layer::image("backdrop")));
     let mut top = Layer::image("source");
     top.blend = mode;
@@ -231,7 +234,7 @@ pub fn families(tier: Tier) -> Vec<Family> {
             modes: all.clone(),
             build: Box::new(move |i| {
                 let (b, s) = channel_grid(p[i].0, p[i].1);
-                Spec { w: 256, h: 256, b, s, lo: 255, co: 255, via_tilemap: false, flags: 3, pad: 0 }
+                Spec { w: 256, h: 256, b, s, lo: 255, co: 255, via_tilemap: false, flags: 3, pad: 0, hflags: 1 }
             }),
         });
     }
@@ -246,7 +249,7 @@ pub fn families(tier: Tier) -> Vec<Family> {
             modes: all.clone(),
             build: Box::new(move |i| {
                 let (b, s) = small_grid();
-                Spec { w: 72, h: 72, b, s, lo: ops[i].0, co: ops[i].1, via_tilemap: false, flags: 3, pad: 0 }
+                Spec { w: 72, h: 72, b, s, lo: ops[i].0, co: ops[i].1, via_tilemap: false, flags: 3, pad: 0, hflags: 1 }
             }),
         });
     }
@@ -261,7 +264,7 @@ pub fn families(tier: Tier) -> Vec<Family> {
                 let al = [(255u8, 255u8), (128, 255), (255, 128), (1, 1)];
                 let (b, s) = lattice_grid(&[0, 1, 127, 128, 255], &al[i..i + 1]);
                 let (w, h) = shape(b.len());
-                Spec { w, h, b, s, lo: 255, co: 255, via_tilemap: false, flags: 3, pad: 0 }
+                Spec { w, h, b, s, lo: 255, co: 255, via_tilemap: false, flags: 3, pad: 0, hflags: 1 }
             }),
         });
     }
@@ -276,7 +279,7 @@ pub fn families(tier: Tier) -> Vec<Family> {
                 let al = [(255u8, 255u8), (128, 200), (200, 77)];
                 let (b, s) = lattice_grid(&[0, 36, 73, 109, 146, 182, 219, 255], &al[i..i + 1]);
                 let (w, h) = shape(b.len());
-                Spec { w, h, b, s, lo: 255, co: [255u8, 254, 100][i], via_tilemap: false, flags: 3, pad: 0 }
+                Spec { w, h, b, s, lo: 255, co: [255u8, 254, 100][i], via_tilemap: false, flags: 3, pad: 0, hflags: 1 }
             }),
         });
     }
@@ -291,7 +294,7 @@ pub fn families(tier: Tier) -> Vec<Family> {
             modes: all.clone(),
             build: Box::new(move |i| {
                 let (b, s) = small_grid();
-                Spec { w: 72, h: 72, b, s, lo: ops[i].0, co: ops[i].1, via_tilemap: true, flags: 3, pad: 0 }
+                Spec { w: 72, h: 72, b, s, lo: ops[i].0, co: ops[i].1, via_tilemap: true, flags: 3, pad: 0, hflags: 1 }
             }),
         });
     }
@@ -308,7 +311,7 @@ pub fn families(tier: Tier) -> Vec<Family> {
             build: Box::new(move |i| {
                 let (b, s) = small_grid();
                 let (lo, co) = ops[i % ops.len()];
-                Spec { w: 72, h: 72, b, s, lo, co, via_tilemap: false, flags: fl[i / ops.len()], pad: 0 }
+                Spec { w: 72, h: 72, b, s, lo, co, via_tilemap: false, flags: fl[i / ops.len()], pad: 0, hflags: 1 }
             }),
         });
     }
@@ -325,7 +328,24 @@ pub fn families(tier: Tier) -> Vec<Family> {
             build: Box::new(move |i| {
                 let (b, s) = small_grid();
                 let (lo, co) = ops[i % ops.len()];
-                Spec { w: 72, h: 72, b, s, lo, co, via_tilemap: false, flags: 3, pad: pads[i / ops.len()] }
+                Spec { w: 72, h: 72, b, s, lo, co, via_tilemap: false, flags: 3, pad: pads[i / ops.len()], hflags: 1 }
+            }),
+        });
+    }
+    // Q8: the header's flag word
+    {
+        let ops: Vec<(u8, u8)> = vec![(255, 255), (200, 77), (0, 255), (128, 255), (255, 128)];
+        let hf: Vec<u32> = vec![0, 2, 0xFFFF_FFFE, 0xFFFF_FFFF];
+        let n = ops.len() * hf.len();
+        v.push(Family {
+            name: "Q8-header-flags",
+            what: "the small grid with the file header's flag word in {0, 2, 0xFFFFFFFE, 0xFFFFFFFF} x 5 opacity pairs: the layer opacity takes part in blending whatever the header says".into(),
+            n,
+            modes: all.clone(),
+            build: Box::new(move |i| {
+                let (b, s) = small_grid();
+                let (lo, co) = ops[i % ops.len()];
+                Spec { w: 72, h: 72, b, s, lo, co, via_tilemap: false, flags: 3, pad: 0, hflags: hf[i / ops.len()] }
             }),
         });
     }
@@ -338,7 +358,7 @@ pub fn families(tier: Tier) -> Vec<Family> {
             modes: separable.clone(),
             build: Box::new(move |i| {
                 let (b, s) = channel_grid((i >> 8) as u8, i as u8);
-                Spec { w: 256, h: 256, b, s, lo: 255, co: 255, via_tilemap: false, flags: 3, pad: 0 }
+                Spec { w: 256, h: 256, b, s, lo: 255, co: 255, via_tilemap: false, flags: 3, pad: 0, hflags: 1 }
             }),
         });
         // T2: layer opacity sweep x Q1
@@ -354,9 +374,9 @@ pub fn families(tier: Tier) -> Vec<Family> {
                     let (ba, sa) = p[i % p.len()];
                     let (b, s) = channel_grid(ba, sa);
                     if o % 8 == 3 {
-                        Spec { w: 256, h: 256, b, s, lo: 255, co: o, via_tilemap: false, flags: 3, pad: 0 }
+                        Spec { w: 256, h: 256, b, s, lo: 255, co: o, via_tilemap: false, flags: 3, pad: 0, hflags: 1 }
                     } else {
-                        Spec { w: 256, h: 256, b, s, lo: o, co: 255, via_tilemap: false, flags: 3, pad: 0 }
+                        Spec { w: 256, h: 256, b, s, lo: o, co: 255, via_tilemap: false, flags: 3, pad: 0, hflags: 1 }
                     }
                 }),
             });
@@ -379,7 +399,7 @@ pub fn families(tier: Tier) -> Vec<Family> {
                         s.push(px(((sc >> 8) * 17) as u8, (((sc >> 4) & 15) * 17) as u8, ((sc & 15) * 17) as u8, sa));
                     }
                 }
-                Spec { w: 256, h: 256, b, s, lo: 255, co: 255, via_tilemap: false, flags: 3, pad: 0 }
+                Spec { w: 256, h: 256, b, s, lo: 255, co: 255, via_tilemap: false, flags: 3, pad: 0, hflags: 1 }
             }),
         });
         v.push(Family {
@@ -407,7 +427,7 @@ pub fn families(tier: Tier) -> Vec<Family> {
                         }
                     }
                 }
-                Spec { w: 256, h: 256, b, s, lo: 255, co: 255, via_tilemap: false, flags: 3, pad: 0 }
+                Spec { w: 256, h: 256, b, s, lo: 255, co: 255, via_tilemap: false, flags: 3, pad: 0, hflags: 1 }
             }),
         });
         // T4: all 65,536 opacity pairs for Normal and Multiply
@@ -418,7 +438,7 @@ pub fn families(tier: Tier) -> Vec<Family> {
             modes: vec![0, 1],
             build: Box::new(move |i| {
                 let (b, s) = small_grid();
-                Spec { w: 72, h: 72, b, s, lo: (i >> 8) as u8, co: i as u8, via_tilemap: false, flags: 3, pad: 0 }
+                Spec { w: 72, h: 72, b, s, lo: (i >> 8) as u8, co: i as u8, via_tilemap: false, flags: 3, pad: 0, hflags: 1 }
             }),
         });
     }
